@@ -185,6 +185,11 @@ func runC19(c *Ctx) {
 			c.Check(okE, "R2", name+":refused-request", mon.Pos(), "a failed proof request alerts", "a failed incremental-proof request does not alert on every path")
 		}
 	}
+	// ---------------- what every task depends on: its own batch, alerts that are not dropped, the version it asked for
+	c.Rule("R4", "each task works on the batch of its own message; alerts are delivered, not dropped; the auditor's query carries the snapshot's version", 3)
+	batchPerMessage(c, "R4")
+	blockingDelivery(c, "R4", p.MustMethod("gossip", "SimpleNotifier", "Alert"), "an alert")
+	optionalVersionByPresence(c, "R4", p.MustMethod("client", "HTTPClient", "MembershipDigest"), 2)
 	// ---------------- publisher
 	pub := cmdTaskClosure(p, "publisherFactory")
 	if pub == nil {
